@@ -54,6 +54,9 @@ bool ParentedEntity::hasParent() const
 bool ParentedEntity::hasAncestor(const ParentedEntityPtr &entity) const
 {
     bool hasAncestor = false;
+    if (entity == nullptr) {
+        return hasAncestor;
+    }
     ParentedEntityPtr parent = pFunc()->mParent.lock();
     if (parent == entity) {
         hasAncestor = true;
